@@ -152,6 +152,10 @@ class NodeParser(PushParser):
             Whether the binding process was successful.
         """
         item = queue.pop()
+        if not queue:
+            # The tail of the root belongs to the surrounding document
+            tail = None
+
         return item.bind(qname, text, tail, objects)
 
     def find_root_clazz(
